@@ -678,6 +678,9 @@ func (g *fnGen) evalCall(x *SCall, env *evalEnv) (string, types.Type, error) {
 			ne.mode = "pre"
 		}
 		return g.eval(x.Args[0], &ne)
+	case "emptyset":
+		// emptyset(): the constant-false map from strings
+		return "((as const (Array Int Bool)) false)", &MathMap{tStr_, tBool_}, nil
 	case "deref":
 		// deref(p): the value a pointer points to
 		if err := argn(1); err != nil {
